@@ -121,6 +121,7 @@ func c07VerifyRaw(c *Ctx, prog *load.Program) {
 		c.R.Fail("C07-2", "VerifyRaw", PosStr(prog, r.Ex.Panics[0].Pos), "a panic is reachable: "+r.Ex.Panics[0].Msg)
 		return
 	}
+	indexSafety(c, "C07-2", "VerifyRaw", pos, r)
 	res, _ := r.Result(0).(*sym.Term)
 	if res == nil {
 		c.R.Unknown("C07-2", "VerifyRaw", pos, "result is not a term: "+absint.ValString(r.Result(0)))
@@ -253,6 +254,7 @@ func c07Options(c *Ctx, prog *load.Program) {
 			c.R.Fail("C07-3", key, PosStr(prog, p.Pos), fmt.Sprintf("a panic (%s) is reachable when {%s}", p.Msg, GuardString(p.Guard)))
 			return
 		}
+		indexSafety(c, "C07-3", key, pos, r)
 		// result: the disjunction over returns of guard && value
 		var parts []*Formula
 		for _, e := range r.Ex.Returns {
